@@ -27,7 +27,8 @@ def run(ctx):
     #            deleted row or a grant back-fill row
     cands, nontriv = [], []
     for cfg in (MC_QUICK if q else MC_THOROUGH):
-        r = model_check(ctx, SPEC, "MC_Revocation", cfg, timeout=6000)
+        # (TLC's -coverage costs too much on the multi-million-state instances: the vacuity guard runs on a quick instance below)
+        r = model_check(ctx, SPEC, "MC_Revocation", cfg, timeout=12000, coverage=False)
         c, b = printed(r, "CAND"), printed(r, "BEH")
         ctx.cov["model_candidates"] = ctx.cov.get("model_candidates", 0) + len(c)
         ctx.cov["model_nontrivial_states"] = ctx.cov.get("model_nontrivial_states", 0) + len(b)
@@ -35,6 +36,8 @@ def run(ctx):
         cands += [("cand", x) for x in c[:6 if q else 40]]
         rnd.shuffle(b)
         nontriv += [("mc", x) for x in b[:110 if q else 600]]
+    if not q:
+        model_check(ctx, SPEC, "MC_Revocation", "MC_Revocation_roles.cfg", timeout=6000, coverage=True, count=False)
     ctx.cov["exhaustive"] = True
 
     # 2. more behaviours, generated concurrently: all action sequences of a tiny instance (seeded sample) and seeded TLC
